@@ -417,3 +417,20 @@ func escapeRule(w *World, r *Report, only *ssa.Function) int {
 	}
 	return nChecked
 }
+
+// importStateless runs the shared-state rules of C14 (globals, escape, registry-ro, noscratch) and adds
+// their obligations under one rule name: a codec whose result depends on package-level state that calls
+// can change (a pooled scratch buffer, a cache, a shared table entry handed out) is not a function of its
+// input — a necessary condition of the repeatability and round-trip properties.
+func importStateless(w *World, r *Report, rule string) {
+	r2 := NewReport(r.Prop, r.Tier)
+	runC14(w, r2)
+	for _, o := range r2.Obs {
+		switch o.Rule {
+		case "globals", "escape", "registry-ro", "noscratch":
+			o.Subject = o.Rule + ":" + o.Subject
+			o.Rule = rule
+			r.Add(o)
+		}
+	}
+}
